@@ -64,7 +64,9 @@ impl Oracle for C04 {
                             // tree, so the same ciphertext decrypts once more)
                             let only_wrapper = old.0 == cur.0 && old.1 == cur.1 && old.2 == cur.2 && old.3 == cur.3 && old.4 == cur.4;
                             let rolled = w.history.iter().any(|r| r.step.node == node && r.rollback);
-                            let kf = if !self.guarded && only_wrapper && rolled { Some("KF-C04-1".to_string()) } else { None };
+                            // (was KF-C04-1; repaired upstream: a stored valid copy is kept as it is)
+                            let _ = (only_wrapper, rolled);
+                            let kf: Option<String> = None;
                             viols.push(("stored-message-replaced", format!("n{node}: message {} was ({}, {:?}, wrapper {}) and is now ({}, {:?}, wrapper {}) after {}", &m.id[..8], &old.0[..8], old.3.chars().take(40).collect::<String>(), &old.5[..8], &cur.0[..8], cur.3.chars().take(40).collect::<String>(), &cur.5[..8], rec.outcome.chars().take(60).collect::<String>()), kf));
                             self.seen.insert((node, gk.clone(), m.id.clone()), cur);
                         }
